@@ -130,3 +130,33 @@ OBLIGATIONS.append(Ob("flatten_identity_when_nothing_decoded", identity_plain,
                       pre="0 <= s0 <= e0 <= 5 and 0 <= s1 <= e1 <= 5 and s0 <= s1 and 0 <= s2 <= e2 <= 5",
                       tier="both", timeout=500, layer="B", functions=["multidecoder.node.Node.flatten"],
                       bound="root of 5 free bytes, two plain children (one of '...string' type) and a plain grandchild, all spans free"))
+
+
+# ---- thorough: three children over a root of 5 bytes ---------------------------------------------------------
+def three_children(r0, r1, r2, r3, r4, s0, e0, s1, e1, s2, e2, f0, f1, f2, q1, v0, v1):
+    n = 5
+    root_bytes = [r0, r1, r2, r3, r4]
+    s0, e0, s1, e1, s2, e2 = pin(s0, 0, n), pin(e0, 0, n), pin(s1, 0, n), pin(e1, 0, n), pin(s2, 0, n), pin(e2, 0, n)
+    rootv = bytes(root_bytes)
+    kids, spec = [], []
+    for idx, (s, e, fresh) in enumerate(((s0, e0, f0), (s1, e1, f1), (s2, e2, f2))):
+        val = bytes([v0, v1][: 1 + (e - s) % 2]) if fresh else rootv[s:e]
+        typ = "x.string" if (idx == 1 and q1) else "t"
+        kids.append(Node(typ, val, "o" if fresh else "", s, e))
+        spec.append((s, e, list(val), typ.endswith("string")))
+    root = Node("", rootv, "", 0, n, children=kids)
+    got = root.flatten()
+    want = ref_flatten(root_bytes, spec)
+    if not same_bytes(got, want):
+        return hx.fail("flatten differs from the reference (3 children)", root=rootv, kids=kids, got=got), True
+    return True, bool(f0) or bool(f1) or bool(f2)
+
+
+OBLIGATIONS.append(Ob("flatten_three_children", three_children,
+                      bytes_params("r", 5) + [("s0", "int:0:5"), ("e0", "int:0:5"), ("s1", "int:0:5"), ("e1", "int:0:5"), ("s2", "int:0:5"), ("e2", "int:0:5")]
+                      + [("f0", "bool"), ("f1", "bool"), ("f2", "bool"), ("q1", "bool"), ("v0", "byte"), ("v1", "byte")],
+                      pre="0 <= s0 <= e0 <= 5 and 0 <= s1 <= e1 <= 5 and 0 <= s2 <= e2 <= 5 and s0 <= s1 <= s2",
+                      splits=[f"f0 == {a} and f1 == {b} and f2 == {c} and s0 == {k}" for a in (True, False) for b in (True, False)
+                              for c in (True, False) for k in range(6)],
+                      tier="thorough", timeout=1500, layer="B", functions=["multidecoder.node.Node.flatten"],
+                      bound="root of 5 free bytes; 3 children with ALL in-bounds span combinations ordered by start, fresh or covered values"))
